@@ -4,7 +4,7 @@
 cd "$(dirname "$0")/.."
 rc=0
 for d in seeded/C*/; do
-  id=$(basename "$d"); id=${id%-[2-9]}
+  id=$(basename "$d"); id=${id%%-*}
   # meta.json may name another property whose check owns the change ("selftest_check") or say why the change is
   # not a violation of the statement as read ("selftest_skip")
   skip=$(python3 -c "import json,sys; print(json.load(open(sys.argv[1])).get('selftest_skip',''))" "$d/meta.json" 2>/dev/null)
